@@ -3,8 +3,12 @@
 //! Usage: vcore <Cxx> [--tier quick|thorough] [--replay <file>]
 
 mod c01;
+mod c04;
+mod c12;
+mod c13;
 mod drive;
 mod mc;
+mod pkt;
 mod report;
 mod simnet;
 mod vclock;
@@ -22,6 +26,9 @@ fn main() {
     let args = report::parse_args(&argv[2..]);
     let code = match argv[1].as_str() {
         "C01" => c01::run(&args),
+        "C04" => c04::run(&args),
+        "C12" => c12::run(&args),
+        "C13" => c13::run(&args),
         other => {
             eprintln!("MACHINERY: unknown property {other}");
             2
